@@ -30,7 +30,15 @@ def families():
                    X.binop("&", X.string("abc"), X.string("abd")),
                    X.binop("&~", X.string("abc"), X.string("c", 2)),
                    X.binop("|", X.string("a"), X.string("b", 1)),
-                   X.darrow(X.string("ab", 1), X.dotfn(X.tup([("@", X.binop("-", X.dot(d, "@"), N(1))), ("@char", X.dot(d, "@char"))])))]
+                   X.darrow(X.string("ab", 1), X.dotfn(X.tup([("@", X.binop("-", X.dot(d, "@"), N(1))), ("@char", X.dot(d, "@char"))]))),
+                   # a hole made and filled again (with, |, both operand orders)
+                   X.binop("with", X.binop("without", X.string("ab"), pr("@char", 0, N(97))), pr("@char", 0, N(97))),
+                   X.binop("without", X.binop("with", X.binop("without", X.string("abc"), pr("@char", 1, N(98))), pr("@char", 1, N(98))), pr("@char", 2, N(99))),
+                   X.binop("without", X.binop("|", X.binop("without", X.string("abc"), pr("@char", 1, N(98))), X.string("b", 1)), pr("@char", 2, N(99))),
+                   X.binop("without", X.binop("|", X.string("b", 1), X.binop("without", X.string("abc"), pr("@char", 1, N(98)))), pr("@char", 2, N(99))),
+                   # joins whose result heading is {@, @char}, with @ from either operand
+                   X.join("<->", X.rel(["k", "@"], [[N(7), N(0)], [N(8), N(1)]]), X.rel(["k", "@char"], [[N(7), N(97)], [N(8), N(98)]])),
+                   X.join("<->", X.rel(["k", "@char"], [[N(7), N(97)], [N(8), N(98)]]), X.rel(["k", "@"], [[N(7), N(0)], [N(8), N(1)]]))]
     F["str_hole"] = [X.binop("without", X.string("abc"), pr("@char", 1, N(98))),
                      X.set_([pr("@char", 0, N(97)), pr("@char", 2, N(99))]),
                      X.binop("|", X.string("a"), X.string("c", 2)),
@@ -48,7 +56,11 @@ def families():
                    X.binop("with", X.arr([N(1)]), pr("@item", 1, N(2))),
                    X.binop("|", X.arr([N(1)]), X.arr([N(2)], 1)),
                    X.binop("&", X.arr([N(1), N(2), N(3)]), X.arr([N(1), N(2), N(4)])),
-                   X.binop("\\", N(-2), X.arr([N(1), N(2)], 2))]
+                   X.binop("\\", N(-2), X.arr([N(1), N(2)], 2)),
+                   X.binop("with", X.binop("without", X.arr([N(1), N(2)]), pr("@item", 0, N(1))), pr("@item", 0, N(1))),
+                   X.binop("without", X.binop("with", X.binop("without", X.arr([N(1), N(2), N(3)]), pr("@item", 1, N(2))), pr("@item", 1, N(2))), pr("@item", 2, N(3))),
+                   X.join("<->", X.rel(["k", "@"], [[N(7), N(0)], [N(8), N(1)]]), X.rel(["k", "@item"], [[N(7), N(1)], [N(8), N(2)]])),
+                   X.join("<->", X.rel(["k", "@item"], [[N(7), N(1)], [N(8), N(2)]]), X.rel(["k", "@"], [[N(7), N(0)], [N(8), N(1)]]))]
     F["arr_off"] = [X.arr([N(3)], 2), X.binop("without", X.arr([N(1), None, N(3)]), pr("@item", 0, N(1))), X.set_([pr("@item", 2, N(3))]),
                     X.binop("\\", N(1), X.arr([N(3)], 1)), X.binop("&~", X.arr([N(1), N(2), N(3)]), X.arr([N(1), N(2)])),
                     X.where(X.arr([N(1), N(2), N(3)]), X.dotfn(X.cmpop(">", X.dot(d, "@item"), N(2))))]
